@@ -26,12 +26,21 @@ Example ex_sub_overflow :
   arith dev row_U11 OSub 0 1 = Panic PExpect /\ arith release row_U11 OSub 0 1 = Ok 2047.
 Proof. vm_compute. auto. Qed.
 
-(* a product that needs many wraps and also overflows the i16 Rep: rustc's overflow check fires in
-   dev; in release the Rep wraps (1046529 -> -2047) and wrap_overflow then adds TOTAL once *)
+(* a product that needs many wraps and also overflows the i16 Rep: checked_mul is None, so the
+   `expect` panics with debug assertions; otherwise wrapping_mul gives -2047 and wrap_overflow adds
+   TOTAL once — in all four configurations, whatever the overflow-checks setting *)
 Example ex_mul_multiwrap :
-  arith dev row_I11 OMul 1023 1023 = Panic POverflow /\ arith release row_I11 OMul 1023 1023 = Ok 1 /\
+  arith dev row_I11 OMul 1023 1023 = Panic PExpect /\ arith (mkCfg true false) row_I11 OMul 1023 1023 = Panic PExpect /\
+  arith release row_I11 OMul 1023 1023 = Ok 1 /\ arith (mkCfg false true) row_I11 OMul 1023 1023 = Ok 1 /\
   (1023 * 1023) mod 2048 = 1.
-Proof. vm_compute. auto. Qed.
+Proof. vm_compute. auto 6. Qed.
+
+(* defect F8 (fixed in the tree that is modelled): 256 * 256 = 65536 wraps to 0 in the i16 Rep; with
+   debug assertions and without overflow checks it must still panic *)
+Example ex_mul_rep_wrap_to_zero :
+  arith (mkCfg true false) row_I11 OMul 256 256 = Panic PExpect /\ arith dev row_I11 OMul 256 256 = Panic PExpect /\
+  arith (mkCfg false true) row_I11 OMul 256 256 = Ok 0 /\ arith release row_I11 OMul 256 256 = Ok 0.
+Proof. vm_compute. auto 6. Qed.
 
 (* a product out of range that still fits the Rep: the while loop runs 31 times *)
 Example ex_mul_loop :
